@@ -116,6 +116,9 @@ Applicable(c, r) ==
     [] c = "SelfCheckAccepts" -> HasSol(r) /\ r.cls \in (LAECls \cup MPECls \cup FDCls \cup CoverCls)
     [] c = "ObjIsCount"      -> HasSol(r) /\ r.cls \in (FDCls \cup CoverCls) /\ r.cls \in MinCls
     [] c = "ConstraintsHonoured" -> HasSol(r) /\ r.cons # <<>>
+    [] c = "Succeeds"        -> r.expect_solved = TRUE
+    [] c = "PlantedValid"    -> r.proutes # <<>> /\ r.cls \in FDCls /\ r.ign = <<>>
+    [] c = "NoCrash"         -> TRUE
     [] OTHER -> FALSE
 
 ConsAsEdges(r, c) ==   \* a constraint of the record as a sequence of user-graph elements
@@ -168,16 +171,29 @@ Holds(c, r) ==
     [] c = "ObjIsCount" -> r.obj = Len(Routes(r)) * UNIT
     [] c = "ConstraintsHonoured" ->
           \A j \in 1..Len(r.cons) : \E i \in NonEmptyIdx(r) : RouteHonours(r, r.cons[j], Routes(r)[i])
+    [] c = "Succeeds"   -> r.timeout = FALSE /\ r.ctor_exc = "none" /\ r.solve_exc = "none" /\ r.solve_ret = 1 /\ Solved(r)
+    [] c = "PlantedValid" ->
+          \* the generator's claim "this flow is the superposition of these routes" re-validated here
+          LET w == [i \in 1..Len(r.pweights) |-> Fx(r, r.pweights[i])] IN
+          /\ \A i \in 1..Len(r.proutes) : IsRoute(g, Starts(r), Ends(r), r.proutes[i])
+          /\ \A x \in Required(r) :
+                SumSeq([i \in 1..Len(r.proutes) |-> w[i] * Uses(r, x, r.proutes[i])]) = F(r)[x]
+    [] c = "NoCrash"    -> /\ r.ctor_exc \in {"none", "ValueError"} /\ r.solve_exc \in {"none", "ValueError"}
+                           /\ r.sol_exc \in {"none", "Exception"} /\ r.process_exit = FALSE
     [] OTHER -> TRUE
 
 ClausesOf(p) ==
   CASE p = "C01" -> {"NodesOfG", "EdgesOfG", "StartsOK", "EndsOK", "SimpleIfDAG", "RoutesKey",
                      "OneWeightPerRoute", "OneSlackPerRoute", "NonNegative", "AtMostK", "ExactlyK",
                      "NoEmptyRoute", "GetSolutionReturns"}
-    [] p = "C02" -> {"FDExact", "WeightTypes", "GetSolutionReturns"}
+    [] p = "C02" -> {"FDExact", "WeightTypes", "GetSolutionReturns", "OneWeightPerRoute", "NonNegative"}
+    [] p = "C03" -> {"Succeeds", "PlantedValid", "FDExact", "NodesOfG", "EdgesOfG", "StartsOK", "EndsOK",
+                     "ConstraintsHonoured", "ObjIsCount", "OneWeightPerRoute"}
+    [] p = "C04" -> {"Succeeds", "PlantedValid", "FDExact", "NodesOfG", "EdgesOfG", "StartsOK", "EndsOK",
+                     "ConstraintsHonoured", "ObjIsCount", "OneWeightPerRoute"}
     [] p = "C07" -> {"LAEErrors", "LAEObjective", "SelfCheckAccepts", "ExactlyK", "OneWeightPerRoute"}
     [] p = "C08" -> {"MPEInequality", "MPEObjective", "OneSlackPerRoute"}
-    [] p = "C09" -> {"Covers"}
+    [] p = "C09" -> {"Succeeds", "Covers", "NodesOfG", "EdgesOfG", "StartsOK", "EndsOK", "ConstraintsHonoured", "ObjIsCount"}
     [] p = "C10" -> {"ConstraintsHonoured"}
     [] p = "ALL" -> {"NodesOfG", "EdgesOfG", "StartsOK", "EndsOK", "SimpleIfDAG", "RoutesKey",
                      "OneWeightPerRoute", "OneSlackPerRoute", "NonNegative", "AtMostK", "ExactlyK",
